@@ -556,13 +556,16 @@ int main(int argc, char **argv) {
       ++per_kind[kind_name(op.k)];
       digests.insert(r.digest);
       if (r.key_before != strip_probe(keys[cur])) {
-        nondet = "prefix replay diverged at state " + keys[cur];
+        nondet = "prefix replay diverged at state " + keys[cur] + " via " + hist_str(h);
         break;
       }
       if (samples.size() < 6 && (transitions % 9973) == 1) samples.push_back(hist_str(h) + " | " + op_str(op) + " -> " + r.key_after);
       if (r.nfail) {
         ++viol_total;
-        for (int f = 0; f < 1 && f < vf::L().nfail; ++f) {
+        std::string tags_seen;  // the first failure of every distinct tag set (an early observational failure must not hide a later one)
+        for (int f = 0; f < vf::L().nfail; ++f) {
+          if (tags_seen.find(std::string("|") + vf::L().fails[f].tags + "|") != std::string::npos) continue;
+          tags_seen += std::string("|") + vf::L().fails[f].tags + "|";
           std::string sig = std::string(kind_name(op.k)) + "|" + vf::L().fails[f].tags + "|" + vf::L().fails[f].msg;
           // strip digits so that thousands of instances of one defect share a signature
           std::string norm;
